@@ -34,8 +34,9 @@ func init() {
 }
 
 // uncheckedArith reports unchecked +,-,* (and <<) on 64-bit unsigned operands in fn, except the guarded idioms:
-//   x - y where a controlling condition establishes y < x or y <= x;
-//   v * c (c constant) whose every use is controlled by a bound v <= K / v < K.
+//
+//	x - y where a controlling condition establishes y < x or y <= x;
+//	v * c (c constant) whose every use is controlled by a bound v <= K / v < K.
 func uncheckedArith(fn *ssa.Function) []string {
 	var out []string
 	for _, b := range binops(fn, token.ADD, token.SUB, token.MUL, token.SHL) {
@@ -143,16 +144,48 @@ func c13(r *Run) {
 					continue
 				}
 				nsat++
+				// a return decided only by "some divisor is zero" saturates because the exact quotient is unbounded
+				zeroOnly := len(ctrlConds(b)) > 0
 				for _, cc := range ctrlConds(b) {
-					for pi, p := range h.Params {
-						if pi < 2 {
-							continue // the factors
+					bo, ok := cc.If.Cond.(*ssa.BinOp)
+					isZ := false
+					if ok && (bo.Op == token.EQL || bo.Op == token.NEQ) {
+						for _, pr := range [][2]ssa.Value{{bo.X, bo.Y}, {bo.Y, bo.X}} {
+							if c0, ok := pr[1].(*ssa.Const); ok && c0.Value != nil && c0.Value.ExactString() == "0" {
+								for pi, p := range h.Params {
+									if pi >= 2 && pr[0] == ssa.Value(p) {
+										isZ = true
+									}
+								}
+							}
 						}
-						pp := p
-						if !derivesFrom(cc.If.Cond, func(v ssa.Value) bool { return v == ssa.Value(pp) }) {
-							okk = false
-							detail = fmt.Sprintf("the saturating return at %s is decided by %s, which does not depend on divisor %s", w.rel(ret.Pos()), predString(cc.If.Cond, cc.Succ == 0), p.Name())
-						}
+					}
+					if !isZ {
+						zeroOnly = false
+					}
+				}
+				if zeroOnly {
+					continue
+				}
+				// the condition that decides saturation (the innermost one) depends on every divisor
+				ccs := ctrlConds(b)
+				if len(ccs) == 0 {
+					continue // not a conditional saturation (a constant helper)
+				}
+				last := ccs[len(ccs)-1]
+				for _, cc := range ccs {
+					if cc.If.Block() == b.Preds[0] || len(b.Preds) > 0 && cc.If == b.Preds[0].Instrs[len(b.Preds[0].Instrs)-1] {
+						last = cc
+					}
+				}
+				for pi, p := range h.Params {
+					if pi < 2 {
+						continue // the factors
+					}
+					pp := p
+					if !derivesFrom(last.If.Cond, func(v ssa.Value) bool { return v == ssa.Value(pp) }) {
+						okk = false
+						detail = fmt.Sprintf("the saturating return at %s is decided by %s, which does not depend on divisor %s", w.rel(ret.Pos()), predString(last.If.Cond, last.Succ == 0), p.Name())
 					}
 				}
 			}
@@ -291,7 +324,33 @@ func c13(r *Run) {
 			a := argTerms(cc[0])
 			okk := len(a) == 7 && glob("(*internal/fees.Manager).Window(p0, phi(*))", a[0]) && glob("(*internal/fees.Manager).LastConsumed(p0, phi(*))", a[1]) && glob("(*internal/fees.Manager).UnitPrice(p0, phi(*))", a[2]) &&
 				glob("(internal/fees.Rules).GetWindowTargetUnits(p2)[phi(*)]", a[3]) && glob("(internal/fees.Rules).GetUnitPriceChangeDenominator(p2)[phi(*)]", a[4]) && glob("(internal/fees.Rules).GetMinUnitPrice(p2)[phi(*)]", a[5]) &&
-				a[6] == "uint64(((p1 / 1000) - int64((encoding/binary.bigEndian).Uint64(encoding/binary.BigEndian, p0.raw[0:8]))))"
+				strings.Contains(a[6], "uint64(((p1 / 1000) - int64((encoding/binary.bigEndian).Uint64(encoding/binary.BigEndian, p0.raw[0:8]))))")
+			// the elapsed time is the difference only where the clock is ahead of the fee state, else 0 (an unsigned
+			// conversion of a negative difference wraps to ~2^64 seconds and wipes the window)
+			clamped := len(a) == 7 && strings.HasPrefix(a[6], "phi(") && (strings.HasPrefix(a[6], "phi(0, ") || strings.HasSuffix(a[6], ", 0)"))
+			if clamped {
+				clamped = false
+				if phi, ok := cc[0].Common().Args[6].(*ssa.Phi); ok {
+					for i, e := range phi.Edges {
+						if term(e) == "0" {
+							continue
+						}
+						pred := phi.Block().Preds[i]
+						si := 0
+						for k, sx := range pred.Succs {
+							if sx == phi.Block() {
+								si = k
+							}
+						}
+						for _, c := range condStrings(ctrlCondsEdge(pred, si)) {
+							if strings.HasPrefix(c, "int64(") && strings.HasSuffix(c, "p0.raw[0:8])) < (p1 / 1000)") {
+								clamped = true
+							}
+						}
+					}
+				}
+			}
+			r.check(clamped, "C13.R3", "ComputeNext:elapsed-clamped-at-zero", r.at(w, cc[0]), "", "the elapsed seconds are converted to unsigned without a 'clock is ahead' test: a clock behind the fee state's timestamp wraps to ~2^64 seconds, the window is wiped and the price collapses")
 			r.check(okk, "C13.R3", "ComputeNext:per-dimension-inputs", r.at(w, cc[0]), "", "computeNextPriceWindow is not fed (window, consumed, price, target, denominator, minimum)[i] and the elapsed seconds: "+strings.Join(a, " | "))
 		} else {
 			r.missing("C13.R3", "ComputeNext:per-dimension-inputs", "computeNextPriceWindow call not found")
